@@ -159,6 +159,12 @@ def apply_step(state, step, info):
     if op == "set_invalid":
         arg = C12._decode_arg(step["arg"])
         r = call(sf.set_semantic_constraints, arg, expected=(ValueError,))
+        if r[0] == "ok" and C12._definitely_invalid(arg):
+            try:
+                recover(state)
+            except Exception:  # noqa
+                pass
+            return Fail("set:invalid_accepted", arg=repr(arg)[:300])
         if r[0] == "ok":
             if isinstance(arg, dict):
                 state.table = dict(arg)
